@@ -479,9 +479,28 @@ def _all_detached(v):
     return isinstance(v, ast.Call) and isinstance(v.func, ast.Attribute) and v.func.attr == "detach"
 
 
+def cache_src_rule(ctx):
+    """CACHE-SRC = LD-STATE (shared with C01 / C02 / C15): what fills the cache is computed from the parameters
+    themselves.  A memo of parameter-derived state kept by a sub-module (a dense Householder matrix keyed on a
+    version counter) is a second cache that the invalidation hooks of Linear do not reach."""
+    from .ld_rules import ld_state_rule
+
+    r = ld_state_rule(ctx)
+    rs = r if isinstance(r, list) else [r]
+    # the linear family and the modules its accessors are built from
+    base = ctx.p.find_class("Linear", "nflows.transforms.linear")
+    files = {c.module.relpath for c in ctx.p.all_classes() if base in c.repo_mro()} | {"nflows/transforms/orthogonal.py"}
+    for x in rs:
+        x.findings = [f for f in x.findings if f.file in files]
+        for f in x.findings:
+            f.rule = "CACHE-SRC"
+        x.rule = "CACHE-SRC"
+    return rs
+
+
 register(
     "C10",
-    [typestate_rule, cache_map_rule, cache_use_rule, cache_clear_rule, cache_graph_rule],
+    [typestate_rule, cache_map_rule, cache_use_rule, cache_clear_rule, cache_graph_rule, cache_src_rule],
     "Typestate analysis of Linear and every subclass (NaiveLinear, LULinear, QRLinear, SVDLinear, OneByOneConvolution): "
     "the transfer function of train/eval/use_cache/forward/inverse/_apply/_load_from_state_dict is derived on every run by "
     "executing the method bodies found in /repo over the abstract store training x using_cache x {None,Fresh,Stale}^fields "
